@@ -525,6 +525,35 @@ theorem corral_offpolicy_tower_accepts (fl : Rat → Rat) (n : Nat) (s : (tower 
     (hs : offPolicyPlain fl n s) (h0 : 0 ≤ r) (h1 : r ≤ 1) (hp : p ≠ 0) : (towerLaws fl n).accepts s a r p :=
   offpolicy_tower_accepts' fl n s a r p hs h0 h1 hp
 
+/-- **rejected feedback raises** (phase 6; the converse of `corral_nested_valid`'s learn clause): at every nesting depth, from every state with the
+invariants, feedback the decidable predicate `acceptsB` REJECTS makes `learn` raise, and what it raises is the Corral's own `assert 0 <= reward <= 1`
+(AssertionError) or the division by a zero probability (ZeroDivisionError) — never anything else, never a silent return.  The harness executes the
+real `learn` on every rejected round and demands the exception (`A:corral-accepts-impl`). -/
+theorem rejected_feedback_raises (fl : Rat → Rat) (n : Nat) (s : (tower fl n).σ) (a : Act) (r p : Rat)
+    (hinv : (towerLaws fl n).inv s) (hready : (towerLaws fl n).ready s) (hrej : acceptsB fl n s a r p = false) :
+    ∃ e, (tower fl n).learn s a r p = .error e ∧ (e = .assertion ∨ e = .zeroDivision) :=
+  rejected_learn_raises_kind' fl n s a r p hinv hready hrej
+
+/-- the hypotheses are satisfiable: an importance Corral over an importance Corral over a RandomLearner, all having predicted, reward 1 at p = 1/2 -/
+example : (towerLaws (fun x => x) 2).inv rejTop ∧ (towerLaws (fun x => x) 2).ready rejTop ∧ acceptsB (fun x => x) 2 rejTop 0 1 (1 / 2) = false :=
+  rejTop_ok
+
+/-- **`learn` succeeds exactly for accepted feedback**: with `corral_nested_valid` (⇐) and `rejected_feedback_raises` (⇒) the forced hypothesis of
+nesting is not merely sufficient but the exact domain of `learn`, at every depth and for every rounding function -/
+theorem tower_learn_ok_iff_accepts (fl : Rat → Rat) (n : Nat) (s : (tower fl n).σ) (a : Act) (r p : Rat)
+    (hinv : (towerLaws fl n).inv s) (hready : (towerLaws fl n).ready s) :
+    (∃ s', (tower fl n).learn s a r p = .ok s') ↔ acceptsB fl n s a r p = true :=
+  tower_learn_ok_iff' fl n s a r p hinv hready
+
+/-- **a string action keeps its own table entry** (phase 6, round i "key handling"): for every string s and every offered object x of the action
+model (number, bool, string, dense or sparse in any flavour) the learners' table key of the string `s` equals the key of x, and Python `==` holds,
+ONLY when x is that very string — never when s merely is the `str()` / `repr()` of x or of x's key (`1` vs `'1'`, `'a'` vs `"'a'"`, `[1, 2]` vs
+`'(1, 2)'`).  The catalogue pairs `COLLIDE_STR` are swept against the real `make_hashable` by `keyeq_sweep` and offered side by side by the generators. -/
+theorem string_action_own_key (s : String) (x : PyAct) :
+    (Key.same (makeHashable (.scalar (.str s))) (makeHashable x) = true ↔ x = .scalar (.str s)) ∧
+    (pyEq (.scalar (.str s)) x = true ↔ x = .scalar (.str s)) :=
+  ⟨str_key_same_iff' s x, str_py_eq_iff' s x⟩
+
 /-- the memoised state `stAfter` of `safe_wrapper_identity`, field by field — what the harness reads off the real SafeLearner after the first
 `predict` of every SafeLearner-wrapped case: `_pred_batch == 'not'`, `_pred_kwargs == kw` (False for the plain learners, True for Corral's
 `{'info': …}`), `_pred_format == 'AP'` -/
